@@ -71,7 +71,7 @@ def cases(tier, rng, dist):
         R, C = rng.randint(2, 4), rng.randint(2, 4)
         m = [[rng.randint(0, 1) for _ in range(C)] for _ in range(R)]
         if swappable(m):
-            yield {"m": m, "k": rng.randint(1, 5), "real_seed": rng.randint(0, 10**6)}
+            yield {"m": m, "k": rng.randint(1, 5), "real_seed": real_seed(rng)}
 
 
 def run(c):
@@ -80,7 +80,7 @@ def run(c):
         return {"r": list(guarded(lambda: pifs(a, k=c["k"], seed=5).tolist(), secs=10))}
     if "real_seed" in c:
         a = np.array(c["m"]); outs = []; same = []
-        for gs, mk in ((1, lambda: c["real_seed"]), (2, lambda: c["real_seed"]), (3, lambda: np.random.RandomState(c["real_seed"])), (4, lambda: np.random.RandomState(c["real_seed"]))):
+        for gs, mk in ((1, lambda: c["real_seed"]), (2, lambda: c["real_seed"]), (3, lambda: np.random.RandomState(c["real_seed"] % 2**32)), (4, lambda: np.random.RandomState(c["real_seed"] % 2**32))):
             np.random.seed(gs); g0 = np.random.get_state()[1].tobytes()
             r = guarded(lambda: pifs(a, k=c["k"], seed=mk()).tolist(), secs=20)
             same.append(g0 == np.random.get_state()[1].tobytes()); outs.append(list(r))
